@@ -10,6 +10,7 @@ CONSTANTS
   RenderFails = TRUE
   CacheMisses = FALSE
   VerBumps = TRUE
+  Forges = TRUE
   FailKinds = {}
 VIEW view
 ACTION_CONSTRAINT Emit
